@@ -1009,7 +1009,7 @@ class Hist:
         if other_slots:
             st.bump('composition-with-population-member')
         accepted_collision = False
-        if exp.get('why') == 'label-collision':
+        if exp.get('why') in ('label-collision', 'length') and exp.get('inputs') is not None:
             self.ev['call'], self.ev['valid'] = desc, False
             try:
                 fn()
@@ -1019,7 +1019,7 @@ class Hist:
                 return
             self.ev['out'] = 'accepted-invalid'
             accepted_collision = True
-            st.bump('composition-with-colliding-labels-accepted')
+            st.bump(f'composition-that-had-to-be-refused-accepted:{exp["why"]}')
         else:
             self.call(fn, [base], valid, desc)
         now, _ = observe.snap(base.real)
@@ -1092,6 +1092,15 @@ class Hist:
             why = 'not-input'
         prefix = name + '@' if (name != '' and add_prefix) else ''
         mapping = {}
+        accept_as = None
+        if why == 'length':
+            # lists of different length have to be refused; should the call return normally, only the pairs that exist
+            # can have been identified, and every other input and output is "unconnected" and has to be kept
+            k = min(len(this_conn), len(other_conn))
+            this_conn, other_conn = list(this_conn[:k]), list(other_conn[:k])
+            if not ((right and (len(set(this_conn)) != len(this_conn) or any(b.gates[g][0] != 'INPUT' for g in this_conn)))
+                    or (not right and (len(set(other_conn)) != len(other_conn) or any(o.gates[g][0] != 'INPUT' for g in other_conn)))):
+                accept_as, why = 'length', None
         if why is None:
             for i, g in enumerate(other_conn):
                 mapping[g] = this_conn[i]
@@ -1106,10 +1115,12 @@ class Hist:
                 exp['valid'] = None
             if not o.is_acyclic() or not b.is_acyclic():
                 exp['valid'] = None
+        if why is None and accept_as is not None:
+            why = accept_as
         if why is not None:
             exp['valid'] = False
             exp['why'] = why
-            if why != 'label-collision':
+            if why not in ('label-collision', 'length') or (why == 'length' and accept_as is None):
                 exp['inputs'] = exp['outputs'] = None
                 return exp
             # a colliding label has to be refused; should the call return normally all the same, its result is still
